@@ -4,13 +4,11 @@ set_option linter.unusedSimpArgs false
   Equality, generalisation, common type and inferred types.
 
   Go → Lean map:
-    <X>type.go (t *XType) Equals                 → `tyEq`  (Enum / Variant: equal length + inclusion both ways; Pattern: equal length +
-                                                   one-way inclusion, exactly as `px.IncludesAll` computes it)
+    <X>type.go (t *XType) Equals                 → `tyEq`  (Enum / Pattern / Variant: equal length + inclusion both ways)
     types.go generalize (= px.Generalize)        → `generalize`   (Generic() if Generalizable, else Default() if parameterized)
     types.go px.GenericType                      → `genericType`  (Generic() if Generalizable, else unchanged)
     <X>type.go Generic()                         → `genericOf`
-    types.go UniqueTypes (by `px.ToKey`)         → `uniqueTy` with `keyEq` (the key of a type is its name and `Parameters()`;
-                                                   `vcStringType` inherits `Parameters()` from `stringType`, so String['a'] keys like String)
+    types.go UniqueTypes (by `Equals`)           → `uniqueTy` (`keyEq`, the old by-key comparison, is kept for reference only)
     commonality.go commonType                    → `commonF` (fuel = recursion depth; `commonType` supplies enough) ; TupleType.CommonElementType → `cetF`
     arraytype.go privateReducedType/DetailedType → `ptype` / `dtype` on `.array`;  hashtype.go likewise; <value>.PType() for scalars
     structtype.go NewStructElement (string key)  → inside `dtype`: the key is Optional iff the value type accepts Undef
@@ -45,7 +43,10 @@ def tyEq (a b : Ty) : Bool :=
       (match b with
        | .enum vs' ci' => ci == ci' && vs.length == vs'.length && subsetStr vs' vs && subsetStr vs vs'
        | _ => false)
-  | .pattern rs => (match b with | .pattern rs' => rs.length == rs'.length && subsetStr rs rs' | _ => false)
+  | .pattern rs =>
+      (match b with
+       | .pattern rs' => rs.length == rs'.length && subsetStr rs rs' && subsetStr rs' rs
+       | _ => false)
   | .regexp s => (match b with | .regexp s' => s == s' | _ => false)
   | .coll r => (match b with | .coll r' => r == r' | _ => false)
   | .array e r => (match b with | .array e' r' => r == r' && tyEq e e' | _ => false)
@@ -147,10 +148,10 @@ def keyEqM : List Member → List Member → Bool
   | _, _ => false
 end
 
-/-- `UniqueTypes`: first occurrence wins, by key -/
+/-- `UniqueTypes`: first occurrence wins, compared with `Equals` (the earlier member is the receiver) -/
 def uniqueTyAux (seen : List Ty) : List Ty → List Ty
   | [] => []
-  | t :: ts => if seen.any (fun s => keyEq s t) then uniqueTyAux seen ts else t :: uniqueTyAux (t :: seen) ts
+  | t :: ts => if seen.any (fun s => tyEq s t) then uniqueTyAux seen ts else t :: uniqueTyAux (t :: seen) ts
 
 def uniqueTy (ts : List Ty) : List Ty :=
   if ts.length < 2 then ts else uniqueTyAux [] ts
@@ -235,7 +236,9 @@ def foldCet (c : Ty → Ty → Ty) : List Ty → Ty
 def commonF : Nat → Ty → Ty → Ty
   | 0, _, _ => .any
   | n + 1, a, b =>
-    if asg cfg sfh a b then a
+    if (match a with | .unit => true | _ => false) then b
+    else if (match b with | .unit => true | _ => false) then a
+    else if asg cfg sfh a b then a
     else if asg cfg sfh b a then b
     else
       match a with
